@@ -798,6 +798,11 @@ def run(ctx):
         "the theorems are about the Lean model of preprocess_text_hangul over a list zipper (glyph = code point, "
         "cluster, hangul feature); glyph-flag bits (unsafe_to_break*) and make_room_for/ensure failures "
         "(out_len > max_len) are outside the model",
+        "full-strength C12_decompose_LV_T is false of the code (and of HarfBuzz) when the font lacks the LV "
+        "syllable: proved only as C12_decompose_LV_T_partial (+ counter-theorem known_C12_LV_T_without_LV_glyph, "
+        "replayed on the crate); the search reports that class once with finding=hangul-LV-T-without-LV-glyph",
+        "that a spacing tone mark moved in front of a syllable shares the syllable's cluster is searched "
+        "(tone-marks stream) and covered by the correspondence, not proved",
         "the model is tied to the crate by the hangul-pre correspondence stream (hook on a bare buffer + real Face "
         "built from a cmap-format-12 font) and, for shape(), by the enumeration search",
         "that later GSUB stages only merge clusters is C02's business",
@@ -809,7 +814,14 @@ def run(ctx):
                    classify=lambda ln, out: [ln.split()[1]])
     ctx.correspond("hangul-support", lines=support_lines(ctx.rng("support"), ctx.budget(600, 6000)),
                    classify=lambda ln, out: ["has" + out[:1], "zero" + out[-1:]])
-    ctx.correspond("hangul-pre", lines=pre_lines(ctx.rng("pre"), ctx.budget(5000, 200000)), classify=classify_pre)
+    # witness of the Lean counter-theorem known_C12_LV_T_without_LV_glyph (jamoFont = everything below U+2000)
+    witness = "hangul pre 0 0 0-8191 44032:0,4520:1"
+    got = vlib.run_lines(shim, [witness], nproc=1)[0]
+    ctx.cov["known_witness"] = {"theorem": "known_C12_LV_T_without_LV_glyph", "request": witness, "crate": got,
+                                "theorem_rhs": "ok 4352:0:1 4449:0:2 4520:1:0",
+                                "reproduces_on_crate": got == "ok 4352:0:1 4449:0:2 4520:1:0"}
+    ctx.correspond("hangul-pre", lines=[witness] + pre_lines(ctx.rng("pre"), ctx.budget(5000, 200000)),
+                   classify=classify_pre)
     stride = ctx.budget(16, 1)
     offset = ctx.seed % stride
     fonts = ["all", "nosyl", "lvonly", "lvtonly", "mix3", "mix7", "nosyl-noT", "nosyl-noV"]
